@@ -86,6 +86,19 @@ def r2_logs(toks, log):
         out.append(toks[i]); i += 1
     return out
 
+def _split_args(toks, a, b):
+    """token lists of the comma-separated arguments in toks[a:b] (depth 0)"""
+    args = [[]]; d = 0
+    for k in range(a, b):
+        x = toks[k].text
+        if x in "([{": d += 1
+        elif x in ")]}": d -= 1
+        if x == "," and d == 0:
+            args.append([]); continue
+        args[-1].append(toks[k])
+    if args and not args[-1]: args.pop()
+    return args
+
 def r3_errors(toks, log):
     out = []
     i = 0
@@ -103,7 +116,13 @@ def r3_errors(toks, log):
             elif t.text == "anyhow":
                 out += gen("verif_err()", t, first.ws); rule = "R3"
             elif t.text == "format":
-                out += gen("verif_string()", t, first.ws); rule = "R3"
+                # R3b: `format!("{}:{}", A, B)` (the one format string whose value decides behaviour: a bind / connect address) keeps its
+                # operands: `verif_host_port(&(A), B)`; every other format! is an unconstrained String
+                args = _split_args(toks, i + 3, close)
+                if len(args) == 3 and render(args[0]).strip() == '"{}:{}"':
+                    out += gen("verif_host_port(&(" + render(args[1]).strip() + "), " + render(args[2]).strip() + ")", t, first.ws); rule = "R3b"
+                else:
+                    out += gen("verif_string()", t, first.ws); rule = "R3"
             else:
                 out += gen("verif_panic()", t, first.ws); rule = "R7"
             log.add(rule, t, orig)
@@ -796,7 +815,9 @@ def r20_ghost_thread(toks, log, cfg):
                 i = c + len(ins)
                 continue
         # free-function calls `name (` / `name ::< .. > (` of the functions listed under "fcalls"
-        if t.kind == "id" and t.text in cfg.get("fcalls", []) and not (i > 0 and out[i - 1].text in (".", "fn", "::")):
+        # "qcalls": path-qualified calls `a :: name (`, listed as "a::name" (the path as written in the source, before R11 flattens it)
+        qhit = (t.kind == "id" and i >= 2 and out[i - 1].text == "::" and (out[i - 2].text + "::" + t.text) in cfg.get("qcalls", []))
+        if qhit or (t.kind == "id" and t.text in cfg.get("fcalls", []) and not (i > 0 and out[i - 1].text in (".", "fn", "::"))):
             j = i + 1
             if j + 1 < len(out) and out[j].text == "::" and out[j + 1].text == "<":
                 d = 0; j += 1
@@ -1001,6 +1022,24 @@ def r29_deasync(toks, log):
         out.append(t); i += 1
     return out
 
+def r31_drop_marker_bounds(toks, log, names):
+    """R31 (selector option "drop_bounds": [..]): the auto-trait marker bounds named (`Unpin`) are removed from bound lists: `+ Unpin` / `Unpin +`.
+    Verus has no notion of auto-trait impls at call sites; a marker bound has no methods and no run-time content."""
+    out = []
+    i = 0
+    while i < len(toks):
+        t = toks[i]
+        if t.text == "+" and i + 1 < len(toks) and toks[i + 1].text in names and not (i + 2 < len(toks) and toks[i + 2].text in ("::", "<")):
+            log.add("R31", t, "+ " + toks[i + 1].text)
+            i += 2
+            continue
+        if t.kind == "id" and t.text in names and i + 1 < len(toks) and toks[i + 1].text == "+" and out and out[-1].text == ":":
+            log.add("R31", t, t.text + " +")
+            i += 2
+            continue
+        out.append(t); i += 1
+    return out
+
 def r30_clone_from(toks, log):
     """R30: the statement `RECV.clone_from(&E);` -> `RECV = E.clone();` (the documented default of Clone::clone_from; Verus has no clone_from)."""
     out = []
@@ -1093,6 +1132,8 @@ def apply_item_rewrites(toks, log, opts=None):
     toks = r16_pattern_params(toks, log)
     toks = r16b_closure_wildcards(toks, log)
     toks = r12_bytes(toks, log)
+    if opts.get("drop_bounds"):
+        toks = r31_drop_marker_bounds(toks, log, opts["drop_bounds"])
     if opts.get("ghost_thread"):
         toks = r20_ghost_thread(toks, log, opts["ghost_thread"])
     if opts.get("inherent"):
